@@ -123,7 +123,7 @@ def _dyadic(lo, hi, k):
     return st.integers(int(math.ceil(lo * s)), int(math.floor(hi * s))).map(lambda i: i / s)
 
 
-REGIMES = ["generic", "generic", "corner", "team_corner", "near_equal", "near_equal", "equal_sums", "identical", "targeted", "targeted", "dyadic"]
+REGIMES = ["generic", "generic", "corner", "team_corner", "near_equal", "near_equal", "equal_sums", "identical", "targeted", "targeted", "dyadic", "int_typed"]
 
 
 @st.composite
@@ -145,6 +145,13 @@ def team_values(draw, cfg, sizes, tau_eff=None, regimes=REGIMES, allow_zero_sigm
             m = draw(st.sampled_from([-20.0 * beta, 20.0 * beta, 20.0 * beta, -20.0 * beta, 0.0]))
             sg = draw(st.sampled_from([1e-4 * beta, 1e-4 * beta, 0.2 * beta, 10.0 * beta] + ([0.0] if allow_zero_sigma else [])))
             teams.append([[m, sg] for _ in range(k)])
+    elif regime == "int_typed":
+        # what `model.rating(mu=30, sigma=5)` gives: mu and sigma are Python ints, not floats (mixed with float-typed team mates)
+        lo_s = max(1, math.ceil(1e-4 * beta))
+        hi_s = max(lo_s, math.floor(10 * beta))
+        hi_m = max(1, math.floor(20 * beta))
+        teams = [[[draw(st.integers(-hi_m, hi_m)) if beta >= 0.5 and draw(st.integers(0, 3)) > 0 else draw(_mu(beta)),
+                   draw(st.integers(lo_s, hi_s)) if beta >= 0.5 and draw(st.integers(0, 3)) > 0 else draw(_sigma(beta))] for _ in range(k)] for k in sizes]
     elif regime == "max_gap":
         # the largest standardised gaps the domain admits: whole teams of settled players at opposite ends of the mu range (what the
         # arguments of exp() and the Gaussian tails are bounded by: up to 16 * 40 beta / (sqrt(2) beta) = 452)
